@@ -26,6 +26,7 @@ import (
 //	                            JSON / YAML document built from it denotes (oracle: decoded into a string)
 //	     (2 init (req ...))     a history of requests against one AtomicLevel shared with a live logger
 //	         req = (#method #content-type ((#key #FormValue(key)) ...) (jerr (#text ...) final_nil))
+//	     (3 init k0 (op ...))   a history over several holders of AtomicLevel handles (c20_shared.go)
 //
 // Oracles (standard library called directly, never through zap): net/http's form parsing,
 // encoding/json's walk over the request body (a probe type records every text handed to
@@ -821,6 +822,8 @@ func c20(c *Ctx) {
 		}
 		c20served(c, c20genTarget(r), reqs, "http-served")
 	}
+	// ---- kind 3: one level, many holders (harness/c20_shared.go)
+	c20shared(c, r)
 	if c20panics > 3 {
 		c.Info("panics_not_listed", fmt.Sprint(c20panics-3))
 	}
